@@ -101,9 +101,15 @@ def main():
     dst = os.path.join(V, "benign", name)
     if result.get("patch_applies"):
         os.makedirs(dst, exist_ok=True)
-        shutil.copy(patch, os.path.join(dst, "patch.diff"))
+        old = meta.get("verification", {}) if os.path.abspath(src) == os.path.abspath(dst) else {}
+        for k in ("cross_runs", "cross_alarms", "suite_ok", "suite_missing_after_rerun"):
+            if k in old and k not in result:
+                result[k] = old[k]
+        if os.path.abspath(src) != os.path.abspath(dst):
+            shutil.copy(patch, os.path.join(dst, "patch.diff"))
         json.dump({"property": pid, "summary": meta.get("summary"), "observable_difference": meta.get("observable_difference"),
-                   "why_property_still_holds": meta.get("why_property_still_holds"), "verification": result},
+                   "why_property_still_holds": meta.get("why_property_still_holds"),
+                   **({"alarm_analysis": meta["alarm_analysis"]} if meta.get("alarm_analysis") else {}), "verification": result},
                   open(os.path.join(dst, "meta.json"), "w"), indent=1)
     print(json.dumps(result, indent=1))
     return 0 if result.get("quiet") and result.get("suite_ok", True) else 1
